@@ -69,9 +69,17 @@ impl CellBuffer {
         self.css_styles.extend(css_styles);
     }
 
+    /// the extent of the occupied cells, a double-width character also occupies the
+    /// column to its right
     pub fn bounds(&self) -> Option<(Cell, Cell)> {
-        let xlimits =
-            self.iter().map(|(cell, _)| cell.x).minmax().into_option();
+        let xlimits = self
+            .iter()
+            .flat_map(|(cell, ch)| {
+                let columns = ch.width().unwrap_or(1).max(1) as i32;
+                [cell.x, cell.x + columns - 1]
+            })
+            .minmax()
+            .into_option();
         let ylimits =
             self.iter().map(|(cell, _)| cell.y).minmax().into_option();
         match (xlimits, ylimits) {
